@@ -367,6 +367,8 @@ class Gen:
         if self.r.randrange(4) == 0: h = self.mutate(h)
         e = self.enc(50)
         x = self.r.randrange(100)
+        # the instances of the IDNA hypotheses of the theorems, at this host, on the oracle
+        self.emit('idnahyp %s' % self.arg(h, e))
         if x < 30:
             self.emit('host %s' % self.arg(h, e))
         elif x < 55:
@@ -390,6 +392,7 @@ class Gen:
         elif k < n + n * n: k -= n; s = syms[k // n] + syms[k % n]
         else: return False
         self.emit('host 8 %s' % U(units(s, 8)))
+        self.emit('idnahyp 8 %s' % U(units(s, 8)))
         return True
 
     def s_enc(self):
